@@ -58,6 +58,22 @@ C01_Tx(sch, idx, o) ==
   /\ C01_CancelFrozen(o)
 
 ---------------------------------------------------------------------------
+(* C01: every view of the machine agrees with every other                     *)
+ViewsAgree(ix, v) ==
+  /\ SIsUniq(v.active)
+  /\ \A i \in 1..Len(ix) :
+       LET n == ix[i]
+           act == SHas(v.active, n)
+       IN /\ IsActiveTick(v.time[i]) <=> act
+          /\ v.ticks[i] = v.time[i]
+          /\ v.clock[n] = v.time[i]
+          /\ v.is[i] = act /\ v.not[i] = ~act /\ v.any[i] = act
+          /\ (\E k \in 1..Len(v.str) : v.str[k] = <<n, v.time[i]>>) <=> act
+          /\ \E k \in 1..Len(v.strall) : v.strall[k] = <<n, v.time[i]>>
+  /\ Len(v.strall) = Len(ix)
+  /\ Len(v.str) = Len(v.active)
+
+---------------------------------------------------------------------------
 (* C02 -- for completed, accepted, non-check transitions                      *)
 C02_Applies(o) == o.accepted /\ ~o.mut.check
 
